@@ -23,6 +23,9 @@ enum SpawnKind {
     Regular,
     Urgent,
     Forget,
+    /// an urgent task that itself spawns an urgent fire-and-forget task through a captured
+    /// `Scheduler` (tasks that use the pool they run on)
+    UrgentNested,
 }
 
 #[derive(Clone, Debug)]
@@ -46,7 +49,7 @@ impl Program {
             .map(|(p, ops)| {
                 format!(
                     "{}@{}",
-                    ops.iter().map(|k| match k { SpawnKind::Regular => 's', SpawnKind::Urgent => 'u', SpawnKind::Forget => 'f' }).collect::<String>(),
+                    ops.iter().map(|k| match k { SpawnKind::Regular => 's', SpawnKind::Urgent => 'u', SpawnKind::Forget => 'f', SpawnKind::UrgentNested => 'n' }).collect::<String>(),
                     p
                 )
             })
@@ -70,7 +73,7 @@ impl Program {
                 let (ops, proc_) = sp.split_once('@').unwrap();
                 (
                     proc_.parse().unwrap(),
-                    ops.chars().map(|c| match c { 's' => SpawnKind::Regular, 'u' => SpawnKind::Urgent, _ => SpawnKind::Forget }).collect(),
+                    ops.chars().map(|c| match c { 's' => SpawnKind::Regular, 'u' => SpawnKind::Urgent, 'n' => SpawnKind::UrgentNested, _ => SpawnKind::Forget }).collect(),
                 )
             })
             .collect();
@@ -151,6 +154,24 @@ fn spawner_body(hw: SystemHardware, sched: Scheduler, processor: usize, ops: Vec
             SpawnKind::Forget => sched.spawn_and_forget(move || {
                 let _ = task();
             }),
+            SpawnKind::UrgentNested => {
+                let inner_sched = sched.clone();
+                let inner_id = first_task + ops.len() + i;
+                let hw3 = hw.clone();
+                handles.push((
+                    id,
+                    sched.spawn_urgent(move || {
+                        let r = task();
+                        inner_sched.spawn_urgent_and_forget(move || {
+                            vsched::point("task:run-nested");
+                            RUNS[inner_id].fetch_add(1, SeqCst);
+                            RAN_ON[inner_id].store(i64::from(hw3.current_processor_id()), SeqCst);
+                        });
+                        drop(inner_sched);
+                        r
+                    }),
+                ));
+            }
         }
     }
     let kept = if keep {
@@ -194,8 +215,11 @@ fn execution(prog: &Program) -> String {
         let (hw2, sched, processor, ops2, f, keep) = (hw.clone(), pool.scheduler(), *processor, ops.clone(), first, prog.keep_scheduler);
         for (i, k) in ops.iter().enumerate() {
             expect_proc.push((first + i, processor, *k));
+            if *k == SpawnKind::UrgentNested {
+                expect_proc.push((first + ops.len() + i, processor, SpawnKind::Forget));
+            }
         }
-        first += ops.len();
+        first += 2 * ops.len();
         joins.push(vsched::spawn(&format!("spawner{si}"), move || spawner_body(hw2, sched, processor, ops2, f, keep)));
     }
     let mut results = Vec::new();
@@ -314,7 +338,7 @@ fn child(job: &str) {
 fn programs(thorough: bool) -> Vec<(Program, String)> {
     use SpawnKind::*;
     let mut v: Vec<(Program, String)> = Vec::new();
-    let seqs1: Vec<Vec<SpawnKind>> = vec![vec![Regular], vec![Urgent], vec![Forget]];
+    let seqs1: Vec<Vec<SpawnKind>> = vec![vec![Regular], vec![Urgent], vec![Forget], vec![UrgentNested]];
     let seqs2: Vec<Vec<SpawnKind>> = vec![vec![Regular, Regular], vec![Regular, Urgent], vec![Urgent, Regular], vec![Forget, Regular], vec![Regular, Forget]];
     // Process and thread creation is serialised system-wide on this VM (~300 executions/s in
     // total, whatever the number of cores), so the tiers are budgeted in executions: quick
@@ -333,6 +357,8 @@ fn programs(thorough: bool) -> Vec<(Program, String)> {
         v.push((mk(1, 2, vec![(0, vec![Regular])], true, true), "d1".into()));
         v.push((mk(2, 1, vec![(0, vec![Regular]), (1, vec![Regular])], false, false), "d1".into()));
         v.push((mk(1, 1, vec![(0, vec![Regular]), (0, vec![Regular])], true, true), "d2".into()));
+        v.push((mk(1, 1, vec![(0, vec![UrgentNested])], false, false), "1".into()));
+        v.push((mk(1, 2, vec![(0, vec![UrgentNested])], false, false), "d1".into()));
         return v;
     }
     for (concurrent_drop, keep_scheduler) in [(false, false), (true, false), (true, true)] {
